@@ -249,7 +249,9 @@ func c19Config(run *evid.Run, cfg Cfg, ca, rogue *rig.CA, ci int, noCA bool) {
 		Permissions: map[string]map[string][]string{"client1": {"Wallet1": {"All"}, "D": {"All"}}, "client2": {"Wallet2": {"All"}}},
 		NDWallets:   map[string][]string{"Wallet1": accounts, "Wallet2": {"other"}}, DistWallets: []string{"D"},
 		// The CA-configured daemon is the build with the race detector: its concurrent phase serves several identities at once.
-		Race: !noCA})
+		Race: !noCA,
+		// The server certificate file of the CA-configured daemon is a bundle that also carries the OTHER authority's certificate.
+		ServerChainExtra: map[bool][]byte{false: rogue.CertPEM, true: nil}[noCA]})
 	if err != nil {
 		run.Inconclusive("cannot prepare daemon: " + err.Error())
 		return
